@@ -1,9 +1,9 @@
 SPECIFICATION TraceSpec
-CONSTANTS K = 5
+CONSTANTS K = 7
           Vals = {"x", "yz"}
           WithCursor = TRUE
           EmitOn = FALSE
 CONSTRAINT HighWater
-INVARIANT PropC09
+INVARIANT PropC09Trace
 POSTCONDITION Accepted
 CHECK_DEADLOCK FALSE
